@@ -488,13 +488,50 @@ def gen_wf_math(rng, depth=3, neq=None):
     return _m("math", eqs)
 
 
+def _esc(t, attr=False):
+    t = t.replace("&", "&amp;").replace("<", "&lt;").replace(">", "&gt;")
+    return t.replace('"', "&quot;") if attr else t
+
+
+def _ser(e, out):
+    if not isinstance(e.tag, str):
+        out.append("<!--%s-->" % (e.text or ""))
+        return
+    ns, name = ("", e.tag)
+    if e.tag.startswith("{"):
+        ns, name = e.tag[1:].split("}", 1)
+    out.append("<" + name)
+    if ns != MATHML:
+        out.append(' xmlns="%s"' % _esc(ns, True))
+    for k, v in e.attrib.items():
+        ans, an = ("", k)
+        if k.startswith("{"):
+            ans, an = k[1:].split("}", 1)
+        out.append(' %s%s="%s"' % ("cellml:" if ans == CELLML2 else "", an, _esc(v, True)))
+    if e.text is None and len(e) == 0:
+        out.append("/>")
+        return
+    out.append(">")
+    if e.text:
+        out.append(_esc(e.text))
+    for c in e:
+        _ser(c, out)
+        if c.tail:
+            out.append(_esc(c.tail))
+    out.append("</%s>" % name)
+
+
 def math_body(math_elem):
-    """XML text of the children of a <math> element, with the prefixes the C++ math wrapper declares"""
-    s = ET.tostring(math_elem, encoding="unicode")
-    s = re.sub(r"^<[^>]*?>", "", s, count=1)            # opening tag of math (carries the xmlns declarations)
-    s = re.sub(r"</[^>]*>\s*$", "", s, count=1)
-    s = s.replace("mathml:", "").replace("ns0:", "")
-    return s
+    """XML text of the children of a <math> element, with the prefixes the C++ math wrapper declares
+    (default namespace MathML, cellml: for CellML 2.0 attributes)"""
+    out = []
+    if math_elem.text:
+        out.append(_esc(math_elem.text))
+    for c in math_elem:
+        _ser(c, out)
+        if c.tail:
+            out.append(_esc(c.tail))
+    return "".join(out)
 
 
 # ------------------------------------------------------------------------------------------------ model glue
